@@ -112,6 +112,52 @@ theorem aggregates_entry (noData : α) (op : Op) (c : Cells (Option α)) (i j : 
   unfold aggregates cellAt
   simp [hi, hj]
 
+/-- End to end. For a collection whose extent has positive width and height (two different x and two different
+y among the observations), positive resolution and margin ≥ 0, `summarize` does not fail: it builds a well-formed
+grid covering every observation, and returns, per operator, `computeAggregates` of the cells `cells`, where the
+cell in line `i`, column `j` holds exactly the values of the observations that `getCell` locates there (so that
+T1, T2, T3 apply to the returned grids). -/
+theorem summarize_spec (obs : List (α × α × Option α)) (rx ry margin noData : α) (ops : List Op)
+    (hrx : 0 < rx) (hry : 0 < ry) (hm : 0 ≤ margin)
+    (hwx : ∃ o ∈ obs, ∃ o' ∈ obs, o.1 < o'.1) (hwy : ∃ o ∈ obs, ∃ o' ∈ obs, o.2.1 < o'.2.1) :
+    ∃ (g : Grid α) (cells : Cells (Option α)),
+      summarize Int.floor Int.ceil noData obs rx ry margin ops
+        = some (g, ops.map (fun op => aggregates noData op cells))
+      ∧ WF g
+      ∧ (∀ o ∈ obs, (g.xmin ≤ o.1 ∧ o.1 ≤ g.xmax) ∧ (g.ymin ≤ o.2.1 ∧ o.2.1 ≤ g.ymax))
+      ∧ Rect cells g.nrow.toNat g.ncol.toNat
+      ∧ ∀ i j, cellAt cells i j
+          = located (fun o : α × α × Option α => getCell Int.floor g o.1 o.2.1) (fun o => o.2.2) j i obs := by
+  obtain ⟨o1, ho1, o2, ho2, hlt⟩ := hwx
+  obtain ⟨p1, hp1, p2, hp2, hlty⟩ := hwy
+  have hxs : obs.map (fun o => o.1) ≠ [] := by
+    intro h; rw [List.map_eq_nil_iff] at h; rw [h] at ho1; simp at ho1
+  have hys : obs.map (fun o => o.2.1) ≠ [] := by
+    intro h; rw [List.map_eq_nil_iff] at h; rw [h] at ho1; simp at ho1
+  obtain ⟨bx0, e1, _, hbx0⟩ := minOf_spec _ hxs
+  obtain ⟨bx1, e2, _, hbx1⟩ := maxOf_spec _ hxs
+  obtain ⟨by0, e3, _, hby0⟩ := minOf_spec _ hys
+  obtain ⟨by1, e4, _, hby1⟩ := maxOf_spec _ hys
+  have mx : ∀ o ∈ obs, o.1 ∈ obs.map (fun o => o.1) := fun o ho => List.mem_map.2 ⟨o, ho, rfl⟩
+  have my : ∀ o ∈ obs, o.2.1 ∈ obs.map (fun o => o.2.1) := fun o ho => List.mem_map.2 ⟨o, ho, rfl⟩
+  have hx : bx0 < bx1 := lt_of_le_of_lt (hbx0 _ (mx o1 ho1)) (lt_of_lt_of_le hlt (hbx1 _ (mx o2 ho2)))
+  have hy : by0 < by1 := lt_of_le_of_lt (hby0 _ (my p1 hp1)) (lt_of_lt_of_le hlty (hby1 _ (my p2 hp2)))
+  obtain ⟨hwf, hc1, hc2, hc3, hc4⟩ := mkGrid_wf bx0 bx1 by0 by1 rx ry margin hx hy hrx hry hm
+  have hin : ∀ o ∈ obs, ((mkGrid Int.ceil bx0 bx1 by0 by1 rx ry margin).xmin ≤ o.1
+        ∧ o.1 ≤ (mkGrid Int.ceil bx0 bx1 by0 by1 rx ry margin).xmax)
+      ∧ ((mkGrid Int.ceil bx0 bx1 by0 by1 rx ry margin).ymin ≤ o.2.1
+        ∧ o.2.1 ≤ (mkGrid Int.ceil bx0 bx1 by0 by1 rx ry margin).ymax) := fun o ho =>
+    ⟨⟨le_trans hc1 (hbx0 _ (mx o ho)), le_trans (hbx1 _ (mx o ho)) hc2⟩,
+     ⟨le_trans hc3 (hby0 _ (my o ho)), le_trans (hby1 _ (my o ho)) hc4⟩⟩
+  obtain ⟨cells, hsc, hR, hcells, _, _⟩ := conservation _ hwf obs hin
+  have hnrow : ¬ ((mkGrid Int.ceil bx0 bx1 by0 by1 rx ry margin).nrow ≤ 0) := by
+    have : 0 < (mkGrid Int.ceil bx0 bx1 by0 by1 rx ry margin).nrow := by
+      rw [hwf.nrow]; exact Int.ceil_pos.2 (div_pos (by linarith [hwf.wy]) hwf.ry)
+    omega
+  refine ⟨_, cells, ?_, hwf, hin, hR, hcells⟩
+  unfold summarize
+  simp only [e1, e2, e3, e4, hnrow, ↓reduceIte, hsc]
+
 /-- the `floor` / `ceil` the driver uses at `Rat` (core `Rat.floor`, `Rat.ceil`) are the `Int.floor` / `Int.ceil`
 of the theorems, so on exact (dyadic) inputs the theorems speak about the very values the driver computes -/
 theorem rat_floor_ceil (q : ℚ) : Int.floor q = Rat.floor q ∧ Int.ceil q = Rat.ceil q := by
